@@ -593,7 +593,7 @@ func runScriptedPeer(c *simkit.Choice, r *simkit.Rec) {
 						// ... or genuine parameters under a signature algorithm the client did not
 						// offer, does not implement, or that does not fit the certificate
 						sr.SrvECDHEWireCurve = 0
-						sr.SrvSKXSigAlg = []uint16{0x0204, 0x0000, 0xffff, 0x0101, 0x0603, 0x0804, 0x0402, 0x0708, 0x0203, 0x0303}[c.Choose(10, simkit.LFault)]
+						sr.SrvSKXSigAlg = []uint16{0x0204, 0x0001, 0xffff, 0x0101, 0x0603, 0x0804, 0x0402, 0x0708, 0x0203, 0x0303}[c.Choose(10, simkit.LFault)]
 					}
 				case 6:
 					sr.SrvSKXWrongKey = true
